@@ -90,7 +90,9 @@ class Opaque:
 
 SPEC_UFS = {'Fstate', 'Fnext', 'Fout', 'depth', 'dom', 'cidx', 'kidx', 'pidx', 'nearest', 'wireof',
             # abstract rationals (carrier: any injection Q -> Z): value of a (sign, exponent, mantissa, precision) tuple and the field operations
-            'val', 'qadd', 'qsub', 'qmul', 'qneg', 'qcmp'}
+            'val', 'qadd', 'qsub', 'qmul', 'qneg', 'qcmp',
+            # abstract result of helper.signExtend (proved in scalar mode against the two's complement spec)
+            'sxt'}
 ACCESSORS = {'getSinks': 'sinks', 'getSource': 'source', 'getWidth': 'width'}
 SPEC_PREDS = {'dep', 'propagatable', 'clockable', 'integ', 'pow2p', 'primitive'}
 
